@@ -279,6 +279,13 @@ func genRound(t *rapid.T, exists uint32, syncLiterals bool) []*cmdSpec {
 				for j, k := 0, rapid.IntRange(0, 3).Draw(t, label+".nexp"); j < k; j++ {
 					nums = append(nums, uint32(rapid.IntRange(1, 5).Draw(t, label+".exp")))
 				}
+				if rapid.IntRange(0, 5).Draw(t, label+".manyexp") == 0 {
+					// more notifications than the client buffers per command;
+					// the caller only collects them once the round has been answered
+					for j, k := 0, rapid.IntRange(120, 300).Draw(t, label+".nmany"); j < k; j++ {
+						nums = append(nums, uint32(1+j%3))
+					}
+				}
 				c.nums = nums
 				for _, x := range nums {
 					c.data = append(c.data, fmt.Sprintf("* %d EXPUNGE", x))
@@ -423,10 +430,17 @@ func genUpdate(t *rapid.T, m *model, label string) update {
 			m.handlerLog = append(m.handlerLog, "mailbox:flags="+fl)
 		}}
 	case 3:
-		fl := rapid.SampledFrom(permLists[1:]).Draw(t, label+".perm")
+		// (an empty list is mirrored by Mailbox() like any other; what the
+		// handler is given for it cannot be told from "unchanged" through the
+		// handler API, so that entry is normalised away on both sides)
+		fl := rapid.SampledFrom(permLists).Draw(t, label+".perm")
 		return update{"* OK [PERMANENTFLAGS " + fl + "] permanent flags", func(m *model, _ bool) {
 			m.permFlags = fl
-			m.handlerLog = append(m.handlerLog, "mailbox:permanentflags="+fl)
+			if fl == "()" {
+				m.handlerLog = append(m.handlerLog, "mailbox:empty-list")
+			} else {
+				m.handlerLog = append(m.handlerLog, "mailbox:permanentflags="+fl)
+			}
 		}}
 	case 4:
 		// FETCH for a message no pending command addresses
@@ -493,7 +507,9 @@ func (r *run) submit(c *cmdSpec) {
 			cmd = cl.Fetch(set, &imap.FetchOptions{Flags: true})
 		case "STORE":
 			set, _ := parseSeq(c.arg)
-			cmd = cl.Store(set, &imap.StoreFlags{Op: imap.StoreFlagsAdd, Flags: []imap.Flag{imap.FlagSeen}}, nil)
+			// .SILENT on every other STORE: servers still send FETCH data for
+			// it (changed by somebody else, MODSEQ...), and it is the STORE's
+			cmd = cl.Store(set, &imap.StoreFlags{Op: imap.StoreFlagsAdd, Silent: c.nums != nil && len(c.nums)%2 == 1, Flags: []imap.Flag{imap.FlagSeen}}, nil)
 		default:
 			var u imap.UIDSet
 			u.AddRange(1000, 1009)
@@ -690,10 +706,25 @@ func (r *run) round(t *rapid.T, idx int) (outOfOrder, sawUpdate bool) {
 		}
 	}
 	// every command completes exactly once with its own status and data
+	// (all waits run at once: a command with more results than the client
+	// buffers holds up the reader, and with it every later completion, until
+	// its own caller collects them)
+	type waited struct {
+		got string
+		err error
+	}
+	results := make([]chan waited, len(cmds))
+	for i, c := range cmds {
+		results[i] = make(chan waited, 1)
+		go func(c *cmdSpec, ch chan waited) { g, e := c.wait(); ch <- waited{g, e} }(c, results[i])
+	}
 	for i, c := range cmds {
 		var got string
 		var err error
-		if werr := cs.Within(10*time.Second, "Wait", func() error { got, err = c.wait(); return nil }); werr != nil {
+		select {
+		case w := <-results[i]:
+			got, err = w.got, w.err
+		case <-time.After(10 * time.Second):
 			r.fail("round %d: Wait of command %d (%s %s) did not return", idx, i, c.tag, c.kind)
 		}
 		if errKey(err) != c.out.want() {
@@ -1159,6 +1190,9 @@ func TestPropRouting(t *testing.T) {
 		}
 		var gotOrdered, wantOrdered, gotFetch, wantFetch []string
 		for _, g := range got {
+			if g == "mailbox:flags=()" || g == "mailbox:permanentflags=()" {
+				g = "mailbox:empty-list"
+			}
 			if strings.HasPrefix(g, "fetch:") {
 				gotFetch = append(gotFetch, g)
 			} else {
